@@ -29,28 +29,28 @@ CLAIMS = {
             'Binary entry points are discovered from the AST (21 required today) and each is abstractly interpreted for all 20 ordered pairs of '
             'different dimensions with symbolic data: an exception must be raised with no operand write and no access outside the extent of any '
             'abstract memory block; the 10 dimension-taking constructors/factories (make_aligned with both fill flags) are interpreted over the window of unsupported arguments named by '
-            'the property (dimension 1,7,8; non-square shapes; list lengths up to 64; indices up to d*d+2).',
+            'the property (dimension 1,7,8; non-square shapes; list lengths up to 64; indices up to d*d+2); every compound assignment v += expr / v -= expr of another dimension in the lifecycle exploration must raise.',
             'static analysis: guard-dominance decided by abstract interpretation over the finite set of dimension pairs, with extent-checked abstract memory'),
     'C04': ('other',
             'Structural necessary conditions (the agreement with closed-form solutions to tolerance is a numerical statement about GSL and is declined): the GSL callback RHS -> set_system_pointers -> Derive '
             'is interpreted on driver-style buffers for all 32 switch settings and several (nx,nsun,nrhos,nscalars) configurations with uninterpreted user terms indexed by their arguments, and the derivative buffer is '
-            'compared slot by slot with the documented equation; the flat-array layout is checked at every binding site; the GSL driver wiring in Evolve is checked against the fields it must read.',
+            'compared slot by slot with the documented equation; the flat-array layout is checked at every binding site (also on an object re-initialised from another shape); at every application of the GSL driver its configuration (whenever it was made) must equal the solver\'s current settings, also in Evolve-setter-Evolve histories for six setters, and the driver is released or owned by the solver when Evolve returns.',
             'static analysis: abstract interpretation of the solver with uninterpreted user hooks and a summarised ODE driver; comparison with the documented right-hand side'),
     'C05': ('other',
             'The seven query functions are interpreted on a solver with symbolic state, symbolic ordered nodes and uninterpreted H0, with the query placed in every order relation to the nodes; the value is compared with '
             'Tr(rho Evolve(op,H0(.),t-t_ini)) built from the C02/C03 tables (H0 argument, weights, bracketing nodes), and both-sided range rejection is required; a query through a scratch buffer (explicit or per-thread) that another solver with a different H0 used before, at the same x or another, must give what a fresh buffer gives; the clock, move and averaging-table rules of C10/C11 are repeated. Numerical value of the trace is declined.',
             'static analysis: abstract interpretation with an explicit order oracle for the bracketing search; one-sided-comparison (range guard) rule'),
     'C10': ('other',
-            'Structural necessary conditions: both Evolve branches advance the clock by dt; the no-numerics branch touches neither state nor driver; post-step re-aliasing uses the ini layout; a fresh driver per call; ini resets clock/views/cache keys; '
-            'each setter recomputes the OR of all five switches (all 64 cases); move operations transfer every field of the record declaration, re-point sys.params and disable the source (also from a source whose numerics are suspended); the right-hand side with terms switched off contributes nothing whatever the stepper buffers hold (C04 D.rhs on one configuration); on a failing driver the clock is the time reached. Equality of split vs single evolution within tolerance is numerical and declined.',
+            'Structural necessary conditions: both Evolve branches advance the clock by dt; the no-numerics branch touches neither state nor driver; post-step re-aliasing uses the ini layout; one integration per call; ini resets clock/views/cache keys (also when the object had another shape before); '
+            'each setter recomputes the OR of all five switches (all 64 cases, from a consistent and from an overridden flag); move operations transfer every field of the record declaration, re-point sys.params, leave the back-pointer of the source off the new object and disable the source (also from a source whose numerics are suspended); the right-hand side with terms switched off contributes nothing whatever the stepper buffers hold (C04 D.rhs on one configuration); on a failing driver the clock is the time reached. Equality of split vs single evolution within tolerance is numerical and declined.',
             'static analysis: abstract interpretation of the solver state handling; field-completeness rule over the record declaration'),
     'C17': ('other',
             'Grid formulas compared with the affine form for nx=2..8 (both scales, all accepted scale names); vector overload guards; Get_i interpreted for nx=2..12 (thorough: ..33) with the query in every order relation to symbolic strictly increasing nodes: '
-            'only comparisons against node values are admitted, a bracketing index must be returned, outside x rejected on both sides. Bounded in nx, hence level other.',
+            'only comparisons against node values are admitted, a bracketing index must be returned, outside x rejected on both sides; a lookup after the grid was replaced (either overload) answers for the grid in force. Bounded in nx, hence level other.',
             'static analysis: abstract interpretation with symbolic ordered grids; comparison-shape rule for the bisection'),
     'C18': ('other',
             'Structural necessary conditions (schedules are not explored; bit-identity declined): every object with static or thread storage is top-level const or thread_local (159 objects, 32 thread-local); no thread-local scratch escapes; '
-            'the const query methods of the solver perform no write reachable from this; calls with process-global side effects only inside once-only static const initialisers; every thread-local owner of heap blocks has a destructor that releases every member its class allocates (1 known finding: the block cache).',
+            'the const query methods of the solver perform no write reachable from this and hand no storage of the object to a callee through a pointer to non-const; calls with process-global side effects only inside once-only static const initialisers; every thread-local owner of heap blocks has a destructor that releases every member its class allocates (1 known finding: the block cache).',
             'static analysis: storage-class and effect audit over the type-resolved AST (who-may-write / who-may-call rules)'),
     'C19': ('other',
             'Structural necessary conditions; linearizability under all interleavings is declined. On both compilations of Cache.h (the atomic one via a driver TU): record typestate (no access after publish), conservation of records after every operation, '
@@ -80,8 +80,8 @@ CLAIMS = {
             'throw with the target untouched; every kernel writes each slot once and never reads the target; trait table vs kernel dependence; wrapper semantics; guarantee forwarding.',
             'static analysis: abstract interpretation with symbolic component data over enumerated storage/alias states; single-assignment and trait/kernel agreement rules'),
     'C12': ('other',
-            'Structural necessary conditions on GetEigenSystem: on every path (d=2..6, both orderings) the outputs are those of gsl_eigen_hermv applied to exactly the C01 matrix of the vector, '
-            'sorted ascending iff requested (a path that orders a diagonal matrix itself is judged on concrete members of the class), nothing else writes them, the matrix handed to the solver is the generic linear conversion for every input (an entry that takes another form on part of the input space is reported), and the body contains no division/root/argument function of input-dependent quantities. The solver\'s accuracy is trusted, so this is not a proof of the numerical statement.',
+            'Structural necessary conditions on GetEigenSystem: on every path (d=2..6, both orderings, also after a decomposition of the same vector with the other ordering flag) the values returned are the outputs of gsl_eigen_hermv for exactly the C01 matrix of the vector (the objects the solver filled or copies of them, eigenvalue k with its own eigenvector column), '
+            'ascending when ordering is requested (by the trusted sort, or - if the path orders them itself - on every concrete order of the eigenvalues for d<=4 and a selection beyond), the matrix handed to the solver is the generic linear conversion for every input (an entry that takes another form on part of the input space is reported), and the body contains no division/root/argument function of input-dependent quantities. The solver\'s accuracy is trusted, so this is not a proof of the numerical statement.',
             'static analysis: path enumeration by abstract interpretation with callee summaries; syntactic rule for writes/divisions outside the trusted solver'),
     'C15': ('other',
             'Token accounting on every exit (incl. library exceptions) of every explored lifecycle path; GSL allocate/free pairing on every path to every exit of every function that allocates, with a may-throw call graph; '
